@@ -303,6 +303,7 @@ def run_group(g, tier, seed, rec):
 
     # ---- mode jit: one compiled call per case ---------------------------------------------------------------
     xs_jit = {}
+    by_orientation = {}
     for idx, c in enumerate(cases):
         if not (rec.want(_cid(g, c, "jit")) or rec.want(_cid(g, c, "grad")) or rec.want(_cid(g, c, "jacfwd"))):
             continue
@@ -314,6 +315,7 @@ def run_group(g, tier, seed, rec):
             lib_fail(c, "jit", e)
             continue
         xs_jit[idx] = x
+        by_orientation.setdefault((c["inst"], c["bk"], c["xk"]), {})[c["sl"]] = (idx, x, conv, iters)
         if rec.want(_cid(g, c, "jit")):
             judge_value(c, idx, "jit", x, conv, iters)
         # derivative modes, only where a root was returned
@@ -330,6 +332,29 @@ def run_group(g, tier, seed, rec):
                     judge_deriv(c, "jacfwd", float(xj), onp.asarray(J))
                 except Exception as e:  # noqa
                     lib_fail(c, "jacfwd", e)
+
+    # ---- "whichever end is negative": f and -f have the same roots and the algorithm is symmetric under the sign flip,
+    # so the two orientations of one (instance, bracket, guess) must both return a root or both return NaN (a differential
+    # oracle without expected values; added after a seeded change that made one orientation fall back to pure bisection
+    # and run out of iterations went undetected)
+    if rec.only is None:
+        for (il_, bk_, xk_), d_ in sorted(by_orientation.items()):
+            if len(d_) != 2:
+                continue
+            (la, (ia, xa, ca, ita)), (lb_, (ib, xb, cb, itb)) = sorted(d_.items())
+            ca_, cb_ = cases[ia], cases[ib]
+            st = static(ca_)
+            if st["cls"] != "sign-change" or static(cb_)["cls"] != "sign-change":
+                continue
+            rec.branch("orientation-pair-compared")
+            if (xa == xa) != (xb == xb):
+                bad = ca_ if xa != xa else cb_
+                rec.violation("find_root|class=sign-change|orientation-dependent-failure|family=%s" % fam,
+                              _cid(g, bad, "jit"),
+                              detail(bad, st, float("nan"), max(ita, itb),
+                                     {"x_sigma_%s" % la: xa, "x_sigma_%s" % lb_: xb, "iterations": [ita, itb]}))
+            elif xa == xa:
+                rec.track_max("orientation_pair_iteration_difference", abs(ita - itb))
 
     # ---- mode vmap: fixed-length compiled batches (value, and value_and_grad) ----------------------------------
     vm, vg = "vmap%d" % B, "vmap%d-grad" % B
